@@ -1,11 +1,19 @@
-//! mon_sem — monitors; dispatches on --prop.
+//! mon_sem — semantic-check monitors (labs); dispatches on --prop.
 
 use vcommon::Args;
+
+mod c14;
+mod c15;
+mod c16;
+mod lab;
 
 fn main() {
     vcommon::pool::install_panic_hook();
     let args = Args::parse();
     match args.prop.as_str() {
+        "C14" => c14::main(args),
+        "C15" => c15::main(args),
+        "C16" => c16::main(args),
         p => {
             eprintln!("mon_sem: unknown property {p}");
             std::process::exit(2);
